@@ -9,6 +9,8 @@
 //! lower- or upper-case mapping of the input character or is a curly apostrophe inside a
 //! proper-noun word replaced by the straight one, the first word-like token starts upper-case when it
 //! starts with an ASCII letter, and a second conversion changes nothing.
+//! The same clauses (no panic, hull length, case-only) are evaluated on make_title_case over sub-slices of
+//! a document's tokens, the way patterns::IsNotTitleCase calls it.
 //! Monitors (each fails the oracle when violated, except H_case_stable which is only counted — its
 //! consequence, idempotence, is what the oracle checks): H_tokens_ok (C02 invariant + tiling of every
 //! PlainEnglish token list), H_canon_len (canonical spelling has the looked-up word's length; swept over
@@ -215,6 +217,39 @@ fn monitor_word(rep: &mut Report, w: &[char], dict: &impl Dictionary, inp: &Valu
     }
 }
 
+/// make_title_case on a sub-slice of a document's tokens, as patterns::IsNotTitleCase (and through it the
+/// proper-noun capitalisation linters) call it: no panic, output = the hull's text up to case / canonical
+/// apostrophes, same length as the hull.
+fn check_subslice(rep: &mut Report, toks: &[Token], a: usize, b: usize, src: &[char], dict: &impl Dictionary, text: &str) {
+    let sub = &toks[a..b];
+    let il = corr(rep, sub, src, dict);
+    rep.count("corr:subslice");
+    let inp = json!({"kind": "text", "text": text, "slice": [a, b]});
+    if il == "P" {
+        rep.fail("subslice_panic", format!("make_title_case panicked on tokens {a}..{b} of the document at {}", last_panic_location()), inp);
+        return;
+    }
+    let out: Vec<char> = if il.len() <= 1 { vec![] } else { il[2..].split(' ').filter_map(|x| x.parse::<u32>().ok().and_then(char::from_u32)).collect() };
+    let hull = sub.span().map(|s| s.get_content(src).to_vec()).unwrap_or_default();
+    if out.len() != hull.len() {
+        rep.fail("subslice_length", format!("tokens {a}..{b}: output has {} chars, their hull {}", out.len(), hull.len()), inp);
+        return;
+    }
+    let start = sub.first().map(|t| t.span.start).unwrap_or(0);
+    for i in 0..out.len() {
+        let (x, y) = (hull[i], out[i]);
+        if x == y || x.to_lowercase().eq(y.to_lowercase()) {
+            continue; // FC18a (KELVIN SIGN) is reported by the whole-text oracle, not here
+        }
+        let in_proper = sub.iter().any(|t| t.span.start <= start + i && start + i < t.span.end && t.kind.is_proper_noun());
+        if is_curly_apostrophe(x) && y == '\'' && in_proper {
+            continue;
+        }
+        rep.fail("subslice_non_case_change", format!("tokens {a}..{b}: hull char {i} {:?} became {:?}", x, y), inp);
+        return;
+    }
+}
+
 fn check_text(rep: &mut Report, world: &World, text: &str, origin: &str, r: Option<&mut Rng>) {
     rep.eval();
     let dict = &*world.dict;
@@ -233,8 +268,7 @@ fn check_text(rep: &mut Report, world: &World, text: &str, origin: &str, r: Opti
             for _ in 0..2 {
                 let a = r.below(toks.len());
                 let b = r.range(a, toks.len());
-                corr(rep, &toks[a..b], &src, dict);
-                rep.count("corr:subslice");
+                check_subslice(rep, &toks, a, b, &src, dict, text);
             }
         }
     }
@@ -671,8 +705,21 @@ fn replay_input(rep: &mut Report, world: &World, v: &Value) {
         }
         "markdown" => check_markdown(rep, world, v["text"].as_str().unwrap_or("")),
         _ => {
-            let mut r = Rng::new(7);
-            check_text(rep, world, v["text"].as_str().unwrap_or(""), "replay", Some(&mut r));
+            let text = v["text"].as_str().unwrap_or("");
+            if let Some(sl) = v["slice"].as_array() {
+                let (a, b) = (sl[0].as_u64().unwrap_or(0) as usize, sl[1].as_u64().unwrap_or(0) as usize);
+                let src: Vec<char> = text.chars().collect();
+                if let Ok(doc) = guarded(|| Document::new_from_vec(Lrc::new(src.clone()), &PlainEnglish, &*world.dict)) {
+                    let toks = doc.get_tokens().to_vec();
+                    if a <= b && b <= toks.len() {
+                        rep.eval();
+                        check_subslice(rep, &toks, a, b, &src, &*world.dict, text);
+                    }
+                }
+            } else {
+                let mut r = Rng::new(7);
+                check_text(rep, world, text, "replay", Some(&mut r));
+            }
         }
     }
 }
